@@ -27,6 +27,9 @@ type c04Params struct {
 	Huge bool `json:"huge,omitempty"`
 	// BigPool: tens of thousands of workers; the rendezvous is given time as long as the number in flight still grows
 	BigPool bool `json:"big_pool,omitempty"`
+	// Prelude: what happens before the rendezvous is attempted: "faults" (the first few iterations end by FailNow, a failed
+	// require, Fatal, a panic), "slow" (the first iteration takes 5.5 s; the others pass through until it is over)
+	Prelude string `json:"prelude,omitempty"`
 }
 
 func init() {
@@ -142,6 +145,27 @@ func init() {
 				cse.TimeoutMS = 240000
 				cs = append(cs, cse)
 			}
+			// all workers still usable after some of them executed iterations that ended badly, or a very long one
+			for i := 0; i < map[string]int{"quick": 5, "thorough": 24}[tier]; i++ {
+				c := pick(r, 3, 4, 8, 32)
+				mode := pick(r, "users", "constant", "custom", "staged")
+				p := c04Params{Rendezvous: true, Body: "gated", PerTick: c, Prelude: "faults"}
+				if i%5 == 4 {
+					p.Prelude = "slow"
+				}
+				p.Spec = engine.RateSpec(mode, p.PerTick, 20, c)
+				if mode == "users" {
+					p.Spec = engine.Spec{Mode: "users", Concurrency: c, MaxDurationMS: 60000}
+				}
+				p.Spec.IgnoreDropped = true
+				p.Spec.MaxFailures = 1 << 40
+				p.Desc = fmt.Sprintf("mode=%s c=%d perTick=%d body=gated rendezvous=true prelude=%s", mode, c, p.PerTick, p.Prelude)
+				cse := core.MkCase("C04", "run", 8000+i, seed, p)
+				cse.Race = i%2 == 0
+				cse.Procs = pick(r, 2, 16)
+				cse.TimeoutMS = 90000
+				cs = append(cs, cse)
+			}
 			// ticks far beyond 32 bits: every worker still gets its request
 			nhu := 3
 			if tier == "thorough" {
@@ -228,8 +252,27 @@ func c04Run(c *core.Case, o *core.Outcome) {
 	var over atomic.Int64
 	var ticksOffering atomic.Int64
 	salt := c.Rng("body").Uint64()
+	var preludeSeq atomic.Int64
+	var preludeOver atomic.Bool
 	scenario := func(t *f1testing.T) f1testing.RunFn {
 		return func(t *f1testing.T) {
+			if p.Prelude != "" && !preludeOver.Load() {
+				ps := preludeSeq.Add(1)
+				switch {
+				case p.Prelude == "faults" && ps < cc:
+					// c-1 iterations (spread over the workers as the pool sees fit) that f1 has to recover from
+					if ps == cc-1 {
+						defer preludeOver.Store(true)
+					}
+					engine.Behave(t, []int{engine.BFailNow, engine.BRequire, engine.BPanicString, engine.BFatal, engine.BPanicError}[ps%5])
+				case p.Prelude == "slow" && ps == 1:
+					time.Sleep(5500 * time.Millisecond)
+					preludeOver.Store(true)
+				default:
+					time.Sleep(time.Millisecond)
+				}
+				return
+			}
 			defer k.Enter(t)()
 			n := k.Inflight.Load()
 			if n > cc {
@@ -302,6 +345,10 @@ func c04Run(c *core.Case, o *core.Outcome) {
 			}
 		}
 	} else if p.Rendezvous {
+		patience := 12 * time.Second
+		if p.Prelude == "slow" {
+			patience = 20 * time.Second
+		}
 		select {
 		case <-opened:
 			if p.Huge {
@@ -316,7 +363,7 @@ func c04Run(c *core.Case, o *core.Outcome) {
 			cancel()
 			r = <-done
 		case r = <-done:
-		case <-time.After(12 * time.Second):
+		case <-time.After(patience):
 			stuck := k.Inflight.Load()
 			cancel()
 			r = <-done
@@ -375,7 +422,7 @@ func c04Run(c *core.Case, o *core.Outcome) {
 		select {
 		case <-opened:
 			o.AddObs("rendezvous_opened", 1)
-			o.Sig("lower:mode=%s:c=%d:tick=%s:procs=%d:verbose=%v:farlimit=%v", p.Spec.Mode, cc, tickClass(p.PerTick, int(cc)), c.Procs, p.Spec.Verbose, p.Spec.MaxIterations > 0)
+			o.Sig("lower:mode=%s:c=%d:tick=%s:procs=%d:verbose=%v:farlimit=%v:prelude=%s", p.Spec.Mode, cc, tickClass(p.PerTick, int(cc)), c.Procs, p.Spec.Verbose, p.Spec.MaxIterations > 0, p.Prelude)
 		default:
 			o.Inconc("run ended before the rendezvous opened (%s)", p.Desc)
 			return
